@@ -377,7 +377,13 @@ class Topology(ABC):
         :param name:
         :return:
         """
-        self.graph_model.remove_network_link(node_id=self._get_link_by_name(name=name).node_id)
+        link = self._get_link_by_name(name=name)
+        for i in link.interface_list:
+            if i.type == InterfaceType.ServicePort:
+                # the link was made by connect_interface()/peer() together with this service port
+                raise TopologyException(f'Link {name} connects service port {i.name}: '
+                                        f'use disconnect_interface() or unpeer() to remove it.')
+        self.graph_model.remove_network_link(node_id=link.node_id)
 
     def add_network_service(self, *, name: str, node_id: str = None, nstype: ServiceType,
                             interfaces: List[Interface] = None, technology: str = None, **kwargs) -> NetworkService:
